@@ -22,6 +22,9 @@ fn driver(prop: &str) -> Option<(&'static str, fn(&mut Cx, &mut Rng) -> R)> {
         "C08" => ("C08", props::c08::case),
         "C09" => ("C09", props::c09::case),
         "C10" => ("C10", props::c10::case),
+        "C11" => ("C11", props::c11::case),
+        "C12" => ("C12", props::c12::case),
+        "C16" => ("C16", props::c16::case),
         _ => return None,
     })
 }
